@@ -63,6 +63,8 @@ extern const char *env_getenv_value;   /* what getenv("LIBERASURECODE_WRITE_LEGA
 extern int env_dlopen_fail;            /* dlopen returns NULL */
 extern int env_dlsym_fail_at;          /* n-th dlsym (1-based) returns NULL; 0 = never */
 extern int env_lock_depth;             /* rwlock monitor: current depth */
-extern int env_isal_force_singular;    /* gf_invert_matrix reports failure */
+extern int env_isal_force_singular;
+extern int env_lock_blocking;          /* C18 */
+extern void (*env_yield_hook)(int id); /* C18: scheduler called at the LIBERASURECODE_VERIF_YIELD sites */    /* gf_invert_matrix reports failure */
 
 #endif
